@@ -173,6 +173,8 @@ type PosCheck struct {
 	Got    string
 	Want   []string // acceptable FENs
 	Before string
+	// AfterSearch: comparison of the handler's position with the one set before the search
+	AfterSearch bool
 }
 
 // WaitOutcome records how a wait step ended.
@@ -204,6 +206,12 @@ func RunUciScript(sc *Scenario) *UciRunOut {
 	}
 
 	wantBest, wantReady := 0, 0
+	hasDamaged := false
+	for _, st := range sc.Steps {
+		if st.Op == "damaged" {
+			hasDamaged = true
+		}
+	}
 	var prevHist []HistLine
 	var gp guiPos
 	gp.pos = rules.MustFen(rules.StartFen) // the engine starts on the start position
@@ -260,6 +268,20 @@ func RunUciScript(sc *Scenario) *UciRunOut {
 				continue
 			}
 			out.StepIn[i] = nIn
+			// the GUI's own view of the position it has set
+			if st.Op == "send" && isPos {
+				if full, _, ok := parsePositionCmd(st.Line); ok {
+					gp.pos, gp.valid = full, true
+				} else {
+					gp.valid = false
+				}
+			}
+			if st.Op == "send" && len(tok) > 0 && tok[0] == "ucinewgame" {
+				gp.pos, gp.valid = rules.MustFen(rules.StartFen), true
+			}
+			if st.Op == "damaged" {
+				gp.valid = false
+			}
 			// bursts: following steps with gap 0 are delivered back to back
 			if i+1 < len(sc.Steps) && sc.Steps[i+1].GapUs == 0 && (sc.Steps[i+1].Op == "send" || sc.Steps[i+1].Op == "damaged") {
 				continue
@@ -269,12 +291,8 @@ func RunUciScript(sc *Scenario) *UciRunOut {
 			if us.Plain && st.Op == "send" && isPos {
 				full, _, ok := parsePositionCmd(st.Line)
 				if ok {
-					gp.pos, gp.valid = full, true
 					out.PosChecks = append(out.PosChecks, PosCheck{Step: i, Line: clip(st.Line, 300), Got: us.PositionFen(), Want: []string{full.Fen()}, Before: before})
 				}
-			}
-			if us.Plain && st.Op == "send" && len(tok) > 0 && tok[0] == "ucinewgame" {
-				gp.pos, gp.valid = rules.MustFen(rules.StartFen), true
 			}
 			if us.Plain && st.Op == "damaged" {
 				// the engine must still hold a well-formed position: either the
@@ -329,6 +347,10 @@ func RunUciScript(sc *Scenario) *UciRunOut {
 				sim.ActorSleep(offGUI, step)
 			}
 			out.Waits = append(out.Waits, WaitOutcome{Step: i, Op: st.Op, Ok: ok, WaitedNs: sim.Now() - start})
+			if ok && st.Op == "wait_best" && us.Plain && gp.valid && !hasDamaged {
+				// the position handed to the search is left unchanged
+				out.PosChecks = append(out.PosChecks, PosCheck{Step: i, Line: "(after search)", Got: us.PositionFen(), Want: []string{gp.pos.Fen()}, AfterSearch: true})
+			}
 			if st.Op == "wait_best" && !ok {
 				// resynchronise so that later accounting stays meaningful
 				b, _, _ := us.Counts()
